@@ -14,6 +14,7 @@ pub struct Finding {
     pub witness: Value,
     pub signature: Value,
     pub commit: Option<String>,
+    pub scope: String,
 }
 
 pub fn load_findings() -> Vec<Finding> {
@@ -34,6 +35,7 @@ pub fn load_findings() -> Vec<Finding> {
             witness: f["witness"].clone(),
             signature: f["signature"].clone(),
             commit: f["commit"].as_str().map(String::from),
+            scope: f["scope"].as_str().unwrap_or("all").to_string(),
         });
     }
     out
@@ -41,10 +43,10 @@ pub fn load_findings() -> Vec<Finding> {
 
 /// gates switched off by `known` findings (of any property: a defect excluded for
 /// C01 is excluded from every generator that shares the construct)
-pub fn gates_off(findings: &[Finding]) -> Vec<String> {
+pub fn gates_off(findings: &[Finding], prop: &str) -> Vec<String> {
     let mut v = vec![];
     for f in findings {
-        if f.status == "known" {
+        if f.status == "known" && (f.scope == "all" || f.property == prop) {
             v.extend(f.gates.iter().cloned());
         }
     }
